@@ -1068,3 +1068,46 @@ func (c *Ctx) ReviewedFuncs() []*ssa.Function {
 	}
 	return c.reviewed
 }
+
+// HeapImpl checks a container/heap implementation over a slice type: Len is
+// len, Less is the given comparison, Swap exchanges exactly elements i and j,
+// Push appends the pushed element, Pop returns the last element and shrinks
+// the slice by one. (container/heap itself is trusted; the order it maintains
+// is the order Less defines.)
+func (c *Ctx) HeapImpl(rule, recvLen, recvPtr, less string) {
+	// recvLen: receiver prefix of Len/Less/Swap ("tcp.segmentHeap." or "(*fragmentation.fragHeap).");
+	// recvPtr: receiver prefix of Push/Pop.
+	if fn := c.Fn(rule, recvLen+"Len"); fn != nil {
+		c.CheckSites(rule, fn, []SiteSpec{{Kind: "return", Args: []string{"builtin:len($0)"}, Guards: []string{}, Exact: true, N: 1, Why: "Len is the number of elements"}})
+	}
+	if fn := c.Fn(rule, recvLen+"Less"); fn != nil {
+		c.CheckSites(rule, fn, []SiteSpec{{Kind: "return", Args: []string{less}, Guards: []string{}, Exact: true, N: 1, Why: "the heap order"}})
+	}
+	if fn := c.Fn(rule, recvLen+"Swap"); fn != nil {
+		c.CheckSites(rule, fn, []SiteSpec{
+			{Kind: "elemstore", Target: "$0", Args: []string{"$1", "$0[$2]"}, Guards: []string{}, Exact: true, N: 1, Why: "h[i] = old h[j]"},
+			{Kind: "elemstore", Target: "$0", Args: []string{"$2", "$0[$1]"}, Guards: []string{}, Exact: true, N: 1, Why: "h[j] = old h[i]"},
+		})
+	}
+	storeToRecv := func(fn *ssa.Function) []string {
+		var out []string
+		t := NewTermer(fn)
+		Instrs(fn, func(in ssa.Instruction) {
+			if st, ok := in.(*ssa.Store); ok && len(fn.Params) > 0 && st.Addr == ssa.Value(fn.Params[0]) {
+				out = append(out, t.T(st.Val))
+			}
+		})
+		return out
+	}
+	if fn := c.Fn(rule, recvPtr+"Push"); fn != nil {
+		sts := storeToRecv(fn)
+		ok := len(sts) == 1 && strings.HasPrefix(sts[0], "builtin:append($0, [$1.(")
+		c.Check(ok, rule, FuncName(fn)+"/appends", c.P.Pos(fn.Pos()), "*h = append(*h, x)", "Push does not append exactly the pushed element: "+strings.Join(sts, "; "))
+	}
+	if fn := c.Fn(rule, recvPtr+"Pop"); fn != nil {
+		c.CheckSites(rule, fn, []SiteSpec{{Kind: "return", Args: []string{"$0[(builtin:len($0) - 1)]"}, Guards: []string{}, Exact: true, N: 1, Why: "Pop hands back the last element (container/heap moved the minimum there)"}})
+		sts := storeToRecv(fn)
+		ok := len(sts) == 1 && termEq(sts[0], "$0[:(builtin:len($0) - 1)]")
+		c.Check(ok, rule, FuncName(fn)+"/shrinks-by-one", c.P.Pos(fn.Pos()), "*h = old[:n-1]", "Pop does not shrink the heap by exactly its last element: "+strings.Join(sts, "; "))
+	}
+}
